@@ -185,3 +185,38 @@ prop('C13',
      level_note='Trusted: Lean kernel, standard axioms, harness. Modelled not verified: copy.deepcopy, Python object identity.',
      technique='Lean 4 frame/separation lemmas over an explicit heap of mutable lists + pure LR driver; randomised fork-tree differential testing against parse()',
      design_ref='DESIGN.md §5 C13')
+
+prop('C14',
+     modules=['LarkVerif.Scan', 'LarkVerif.Props.C14'],
+     theorems=['Props.C14.ordered_disjoint', 'Props.C14.each_match_longest', 'Props.C14.no_miss', 'Props.C14.driver_runs_verified_loop'],
+     fingerprints=['lark/parser_frontends.py:ParsingFrontend.scan', 'lark/lexer.py:Scanner.search', 'lark/lexer.py:LineCounter.from_text_slice', 'lark/lexer.py:LineCounter.advance_to'],
+     rule='two streams of LALR grammars x {basic, contextual} x str/bytes x TextSlice windows: (safe) prefix-free single-character terminals with blank ignored; (rich) keywords, identifiers, numbers, comments, '
+          'newline-bearing ignores. For each text: the verified loop scanRaw runs on oracle tables (search: earliest position where a non-ignored terminal of the start state matches, from individually compiled regexes; '
+          'attempt: longest token prefix after which $END is accepted, from the real lexer and interactive parser started at every offset) and must reproduce scan()\'s ranges; every match value must equal parse() of the '
+          'snippet as a TextSlice (trees, token positions and all meta fields in full-buffer coordinates); on the safe stream ranges must equal brute-force leftmost-longest over all substrings that parse. '
+          'Non-trivial = at least one match; distinct by canonical hash.',
+     not_proved=['SearchSound (a position the search jumps over starts no non-ignored terminal) and the oracles\' range lemmas are hypotheses of the theorems, sampled on every case through the tables',
+                 'value = parse(snippet) is compared, not proved (it rests on C06 window_start_exact and C13 replay)'],
+     assumptions=['known finding F9: the no-miss clause is relative to the tokenisation of the text (a token is never split by a snippet end)'],
+     level_text='Theorems over the _scan loop with abstract search/attempt oracles: matches are ordered, non-empty and disjoint; each is the longest token prefix the parser completes from its start; under SearchSound no skipped '
+                'position starts a completable snippet. The same loop (proved equal to the proof-carrying one) is run by the driver on tables extracted from the real lexer/parser and compared with scan().',
+     level_note='Trusted: Lean kernel, standard axioms, harness (oracle tables). Modelled not verified: Python re search, the lexer and LALR driver (C07/C02).',
+     technique='Lean 4 invariant proofs over the scan loop with oracle parameters + table-driven correspondence + brute-force substring oracle on prefix-free terminal sets',
+     design_ref='DESIGN.md §5 C14')
+
+prop('C15',
+     modules=['LarkVerif.LineCounter', 'LarkVerif.Props.C06', 'LarkVerif.Props.C15'],
+     theorems=['Props.C15.window_begins_with_buffer_coordinates', 'Props.C15.window_tokens_in_buffer_coordinates', 'Props.C15.snapshot_resume_exact', 'Props.C15.coord_shift'],
+     fingerprints=['lark/utils.py:TextSlice.__post_init__', 'lark/lexer.py:Scanner.match', 'lark/lexer.py:LineCounter.from_text_slice', 'lark/lexer.py:LineCounter.advance_to', 'lark/parsers/xearley.py:Parser._parse',
+                   'lark/lexer.py:ContextualLexer.lex'],
+     rule='random CFGs over string/regexp terminals with newline-bearing ignores x {lalr/basic, lalr/contextual, earley/basic, earley/dynamic, earley/dynamic_complete, cyk} x ASCII texts (sampled sentences, mutated, random) '
+          'embedded in random buffers with newlines before and after: the text is parsed as str, as bytes (use_bytes), as TextSlice(buffer, a, b) and as TextSlice over bytes. Compared: acceptance, tree shape, token types/values, '
+          'offsets relative to the window start, error class and position; line/column of every token, meta and error of the window results against the Lean stamp model evaluated on the whole buffer. '
+          'Non-trivial = non-empty text in a window that does not start at 0; distinct by canonical hash.',
+     not_proved=['equality of tree shape/token values between representations is compared, not proved (it needs the regex engine to agree on str and bytes and to be window-invariant: named hypotheses)'],
+     assumptions=['Python re matches ASCII text identically as str and as bytes', 'no terminal uses look-behind across the window start'],
+     level_text='Theorems: a counter positioned on a window starts with the buffer\'s coordinates, every token then stamped carries the buffer\'s offsets/lines/columns, snapshot resume is exact, and coordinates shift by the '
+                'newlines of the prefix. Three-way (four-way) differential comparison of str / bytes / TextSlice results on the real code, with window coordinates checked against the verified stamp model.',
+     level_note='Trusted: Lean kernel, standard axioms, harness. Modelled not verified: Python re on bytes vs str.',
+     technique='Lean 4 coordinate theorems (LineCounter on windows) + representation-differential testing with model-checked coordinates',
+     design_ref='DESIGN.md §5 C15')
